@@ -7,7 +7,7 @@ For every sampled table that gtirb wrote to the simulated disk:
   1. the Java codec decodes gtirb's bytes; the decoded value must equal the model value;
   2. the Java codec re-encodes the value; gtirb must decode those bytes to the model value.
 Types the Java codec does not support (double, Addr, tuple arity > 5, variant
-arity other than 2/3) are not sampled.
+arity other than 2/3/11) are not sampled.
 """
 import json
 import os
@@ -33,7 +33,7 @@ def java_supported(t):
     if n == "tuple":
         return 1 <= len(subs) <= 5 and all(java_supported(s) for s in subs)
     if n == "variant":
-        return len(subs) in (2, 3) and all(java_supported(s) for s in subs)
+        return len(subs) in (2, 3, 11) and all(java_supported(s) for s in subs)
     return False
 
 
@@ -144,5 +144,17 @@ def run_stage(samples, pools, build_dir):
                 viol.append({"id": "javaback%d" % i, "check": "c08:java_bytes_undecodable", "sample": s, "detail": "%s: gtirb cannot decode the Java codec's bytes %s: %s" % (s["type"], hx, val)})
             elif not auxm.cv_equal(R.canon(val, t), s["want"], t):
                 viol.append({"id": "javaback%d" % i, "check": "c08:java_bytes_other_value", "sample": s, "detail": "%s: Java wrote %s for %r; gtirb decodes %r" % (s["type"], hx, s["want"], val)})
-    cov["java_stage"] = {"status": "ran", "tables_sent": len(items), "decoded_by_java_and_equal": n_ok - len([v for v in viol if v["check"].startswith("c08:java_dec")]), "unsupported_by_java": n_uns, "java_bytes_decoded_by_gtirb": len(re_enc), "component": "real second implementation (repository's Java codecs, javac-built from the working tree), run outside the simulator"}
+    def arities(t, acc):
+        n, subs = t
+        if n in ("tuple", "variant"):
+            acc.add("%s%d" % (n, len(subs)))
+        for x in subs:
+            arities(x, acc)
+        return acc
+
+    ar = {}
+    for s in items:
+        for a in arities(R.parse_type(s["type"]), set()):
+            ar[a] = ar.get(a, 0) + 1
+    cov["java_stage"] = {"status": "ran", "tables_by_tuple_or_variant_arity": dict(sorted(ar.items())), "tables_sent": len(items), "decoded_by_java_and_equal": n_ok - len([v for v in viol if v["check"].startswith("c08:java_dec")]), "unsupported_by_java": n_uns, "java_bytes_decoded_by_gtirb": len(re_enc), "component": "real second implementation (repository's Java codecs, javac-built from the working tree), run outside the simulator"}
     return {"coverage": cov, "violations": viol[:3]}
